@@ -253,20 +253,28 @@ var langs3 = []language.Tag{language.English, language.Japanese, language.French
 
 // checkReportScores checks the score / severity-independent formatting of the
 // three report levels of a decoded environmental object.
+var engSev = map[string]string{"None": "None", "Low": "Low", "Medium": "Medium", "High": "High", "Critical": "Critical"}
+
 func checkReportScores(w *W, e *m3.Environmental, c Case) {
 	defer func() {
 		if r := recover(); r != nil {
 			w.Count("report_panicked")
 		}
 	}()
+	// the score fields are plain decimal numbers whatever language the report is in; the severity name is the
+	// English one for every language but Japanese
+	lang := []language.Tag{language.English, language.English, language.Japanese, language.German, language.French, language.Arabic, language.Persian, language.Russian, language.Hindi, language.Bengali, language.MustParse("ar-EG"), language.MustParse("de-CH"), language.MustParse("mr"), language.MustParse("my")}[Hash(c.Input)>>9%14]
 	if Hash(c.Input)%4 == 0 {
 		// a client that edits the report it received (redacting, decorating): the next report of the same
 		// vector is built from the metrics again, not from what the client did to the earlier one
-		lib.Report{Level: 2, E: report.NewEnvironmental(e, report.WithOptionsLanguage(language.English))}.Scribble()
+		lib.Report{Level: 2, E: report.NewEnvironmental(e, report.WithOptionsLanguage(lang))}.Scribble()
 		w.Count("reports_built_after_an_earlier_report_of_the_vector_was_overwritten_by_the_client")
 	}
-	rep := report.NewEnvironmental(e, report.WithOptionsLanguage(language.English))
-	sevWant := map[string]string{"None": "None", "Low": "Low", "Medium": "Medium", "High": "High", "Critical": "Critical"}
+	rep := report.NewEnvironmental(e, report.WithOptionsLanguage(lang))
+	sevWant := engSev
+	if lang == language.Japanese {
+		sevWant = nil
+	}
 	if s, ok := sevWant[e.Severity().String()]; ok && rep.SeverityValue != s {
 		w.Violate(Violation{Monitor: "C06", Check: "report severity field is the English name of the object's severity", Case: c, Observed: rep.SeverityValue, Expected: s})
 	}
